@@ -18,7 +18,9 @@ def make_net(family, nseed, case=None):
     return netgen.make(family, nseed)
 
 
-def gen_cases(tier, seed, tag, n_quick, n_thorough, families=None, weights=None, cfg_hook=None):
+def gen_cases(tier, seed, tag, n_quick, n_thorough, families=None, weights=None, cfg_hook=None, extra=None):
+    """extra: [(family, n_quick, n_thorough)] - cases appended after the regular ones, so that adding a family never changes which networks the regular
+    indices denote (recorded witnesses, seeded-change evaluations and catch densities stay comparable)"""
     families = families or FAMILIES_ALL
     n = n_quick if tier == "quick" else n_thorough
     rng = np.random.default_rng(np.random.SeedSequence([tag, seed]))
@@ -29,6 +31,14 @@ def gen_cases(tier, seed, tag, n_quick, n_thorough, families=None, weights=None,
         if cfg_hook:
             cfg_hook(rng, cfg, fam, i)
         cases.append({"family": fam, "nseed": int(seed * 1000003 + i * 7 + tag), "cfg": cfg})
+    i = n
+    for fam, nq, nt in extra or []:
+        for _ in range(nq if tier == "quick" else nt):
+            cfg = cfggen.rand_cfg(rng)
+            if cfg_hook:
+                cfg_hook(rng, cfg, fam, i)
+            cases.append({"family": fam, "nseed": int(seed * 1000003 + i * 7 + tag), "cfg": cfg})
+            i += 1
     return cases
 
 
